@@ -398,8 +398,11 @@ class Fn:
                             if c.endswith("index_mut") or c.endswith("::index"):
                                 if len(t["args"]) > 1:
                                     k = t["args"][1].get("const")
+                                    ipl = op_place(t["args"][1])
                                     if k and isinstance(k.get("v"), dict) and "int" in k["v"]:
                                         idxpath = (("elem", k["v"]["int"]),)
+                                    elif ipl is not None and not ipl["p"]:
+                                        idxpath = (("elem_local", ipl["l"], bb),)
                                     else:
                                         idxpath = (("elem", None),)
                             for (tl, path, m) in list(pts[src["l"]]):
@@ -613,6 +616,12 @@ class Fn:
             return ("elem", None, v)
         if isinstance(pj, tuple) and pj[0] == "cidx" and not pj[2]:
             return ("elem", pj[1])
+        if isinstance(pj, tuple) and pj[0] == "elem_local":
+            # index operand of an index_mut call: its value when the call was made
+            v = self.local_value(pj[1], (pj[2], len(self.stmts(pj[2]))))
+            if v[0] == "const" and isinstance(v[2], int) and not isinstance(v[2], bool):
+                return ("elem", v[2])
+            return ("elem", None, v)
         return pj
 
     def _norm_path(self, path, point):
